@@ -209,7 +209,7 @@ Definition conc_corr (start : N) (counts : list nat) (sched : list nat) (o : cob
   list_eqb (list_eqb N.eqb) (map (fun t => ids_of t out) (seq 0 (List.length counts))) (co_ids o).
 
 Definition conc_ok (counts : list nat) (o : cobs) : bool :=
-  let all := concat (co_ids o) in
+  let all := List.concat (co_ids o) in
   nodup_N all && forallb (fun id => negb (id =? 0)) all
   && list_eqb Nat.eqb (map (@List.length N) (co_ids o)) counts
   && nodup_N (co_event_ids o)
@@ -300,12 +300,12 @@ Example judge_examples_detect :
   /\ perturb (fun l => match l with a :: b :: r => a :: b :: b :: r | _ => l end) ex_fib = PropFail
   (* span id 0; a reused id *)
   /\ perturb (map_nth 1 (fun e => match e with ENewSpan _ p m v => ENewSpan 0 p m v | _ => e end)) ex_fib = PropFail
-  /\ perturb (map_nth 2 (fun e => match e with ENewSpan _ p m v => ENewSpan 1 p m v | _ => e end)) ex_explicit_parent = PropFail
+  /\ perturb (map_nth 3 (fun e => match e with ENewSpan _ p m v => ENewSpan 1 p m v | _ => e end)) ex_explicit_parent = PropFail
   (* the announcement after the use; with different content *)
   /\ perturb (fun l => match l with a :: b :: r => b :: a :: r | _ => l end) ex_fib = PropFail
   /\ perturb (map_nth 0 (fun e => match e with ENewCallSite m d => ENewCallSite m cs_none | _ => e end)) ex_fib = PropFail
   (* a lost explicit parent; a value set that kept an earlier value; a wrong span id *)
-  /\ perturb (map_nth 2 (fun e => match e with ENewSpan i _ m v => ENewSpan i None m v | _ => e end)) ex_explicit_parent = PropFail
+  /\ perturb (map_nth 3 (fun e => match e with ENewSpan i _ m v => ENewSpan i None m v | _ => e end)) ex_explicit_parent = PropFail
   /\ perturb (map_nth 6 (fun e => match e with EValuesRecorded i _ => EValuesRecorded i [] | _ => e end)) ex_fib = PropFail
   /\ perturb (map_nth 2 (fun e => ESpanEntered 2)) ex_fib = PropFail.
 Proof. vm_compute. repeat split. Qed.
